@@ -128,6 +128,8 @@ pub fn build_specimen(name: &str, case: &ContCase, small: bool, dir: &Path) -> R
     std::fs::create_dir_all(dir).map_err(|e| e.to_string())?;
     let created = if name == "loose-concat" {
         create_loose(case, dir, &|_, _| String::new(), Some("c.jbk"))?
+    } else if name == "loose-dup-concat" {
+        create_loose(case, dir, &|_, _| String::new(), Some("dup:c.jbk"))?
     } else {
         create_container(case, dir, "c.jbk", Arc::new(()))?
     };
